@@ -16,7 +16,7 @@ import (
 )
 
 // aligned scene: every index view has a byte length that is a multiple of 4
-var cleanCase = Case{Models: []ModelSpec{{"Q", "M", "TRS", 2}, {"P", "-", "R", 1}, {"Q", "Me", "-", 0}}, Lights: 1, GLB: true}
+var cleanCase = Case{Models: []ModelSpec{{Mesh: "Q", Mat: "M", TRS: "TRS", Inst: 2}, {Mesh: "P", Mat: "-", TRS: "R", Inst: 1}, {Mesh: "Q", Mat: "Me", TRS: "-", Inst: 0}}, Lights: 1, GLB: true}
 
 func write(t *testing.T, cs Case) []byte {
 	t.Helper()
@@ -199,7 +199,7 @@ func TestContainerRules(t *testing.T) {
 // Two different causes of a misaligned float view must land in different classes.
 func TestMisalignmentClasses(t *testing.T) {
 	// the writer's own layout: 3 uint16 indices (6 bytes) followed by the next mesh's positions
-	cs := Case{Models: []ModelSpec{{"A", "-", "-", 0}, {"A'", "-", "-", 0}}, GLB: true}
+	cs := Case{Models: []ModelSpec{{Mesh: "A", Mat: "-", TRS: "-", Inst: 0}, {Mesh: "A'", Mat: "-", TRS: "-", Inst: 0}}, GLB: true}
 	d, ps := Parse(write(t, cs), true)
 	ps = all(d, ps, cs)
 	for _, p := range ps {
